@@ -3,7 +3,7 @@
 from hypothesis import strategies as st
 
 from vlib.runner import Sub, ok, bad, skip
-from vlib import bench, c11lib
+from vlib import bench, c11lib, env
 
 LEVEL = "fault_enumeration"
 RULE = ("shared interconnect of each bus standard (wishbone.InterconnectShared, AXILiteInterconnectShared, "
@@ -1002,6 +1002,84 @@ def run_soc(case):
     return ok(nt=slverr >= 2, cls=cls + ["forced>=2"] * (slverr >= 2), cycles=cyc, counts={"forced": slverr})
 
 
+# ======================================================================================= buses composed by SoCBusHandler
+
+K_P2P = "c11:socbus-p2p-no-timeout"
+
+
+def enum_socbus(tier):
+    """SoCBusHandler(timeout=T) composing the bus itself: 1..2 masters x 1..2 slaves, the first slave's region at 0 or elsewhere,
+    registered / unregistered decode; one master reads a mapped word, an unmapped address, a slave that never answers, and a
+    mapped word again"""
+    out = []
+    for T in (2, 5, 9):
+        for M in (1, 2):
+            for S in (1, 2):
+                for origin in (0, 0x40000000):
+                    for register in (False, True):
+                        out.append({"T": T, "M": M, "S": S, "origin": origin, "register": register})
+    return out
+
+
+def run_socbus(case):
+    from migen import Module, Signal
+    from litex.soc.interconnect import wishbone
+    from litex.soc.integration.soc import SoCBusHandler, SoCRegion
+    T, M, S, origin, register = case["T"], case["M"], case["S"], case["origin"], bool(case["register"])
+    top = Module()
+    h = SoCBusHandler(standard="wishbone", data_width=32, address_width=32, timeout=T, interconnect="shared", interconnect_register=register)
+    masters = [wishbone.Interface(data_width=32, adr_width=30, addressing="word") for _ in range(M)]
+    slaves = [wishbone.Interface(data_width=32, adr_width=30, addressing="word") for _ in range(S)]
+    bases = [origin, 0x10000000][:S]
+    try:
+        for i, m in enumerate(masters):
+            h.add_master("m%d" % i, m)
+        for j, (sl, b) in enumerate(zip(slaves, bases)):
+            h.add_slave("s%d" % j, sl, SoCRegion(origin=b, size=0x1000))
+    finally:
+        env.restore_stderr()
+    top.submodules.h = h
+    term = Signal()
+    from functools import reduce
+    from operator import or_
+    top.comb += term.eq(reduce(or_, [m.ack for m in masters]))
+    for j, sl in enumerate(slaves):
+        top.submodules += c11lib.WBLatSlave(sl, 16, _wb_init(7, j), term, min_latency1=register)
+    hole = 0x70000000
+    lat0 = 1 if register else 0
+    mk = lambda we, badr, lat: {"we": we, "adr": badr >> 2, "dat": (1 << 28) | (lat << 24) | 0x1234, "sel": 15, "gap": 1, "hold": False}
+    ops = [mk(0, bases[0] + 8, lat0), mk(0, hole, 0), mk(0, bases[0] + 12, c11lib.NEVER), mk(0, bases[0] + 8, lat0), mk(1, hole + 4, 0), mk(0, bases[-1] + 4, lat0)]
+    kinds = ["mapped", "unmapped", "silent", "mapped", "unmapped", "mapped"]
+    mags = [c11lib.WBOpMaster(masters[0], ops)] + [c11lib.WBOpMaster(m, [mk(0, bases[-1] + 16, lat0)]) for m in masters[1:]]
+    limit = 80 + len(ops) * (T + 12)
+    cyc = bench.run(top, mags, limit, stop=lambda t: all(a.finished() for a in mags))
+    p2p = M == 1 and S == 1 and origin == 0
+    cls = ["socbus", "T=%d" % T, "M%dS%d" % (M, S), "origin=%#x" % origin, "registered" if register else "comb-decode"] + (["point-to-point"] if p2p else [])
+    ctx = "SoCBusHandler(wishbone, timeout=%d, shared%s) %d master(s), %d slave(s), first region at %#x" % (T, ", registered" if register else "", M, S, origin)
+    key = K_P2P if p2p else "c11:socbus"
+    for a in mags:
+        if not a.finished():
+            i = a.i
+            return bad("termination", "%s: the %s request #%d (%s %#x) was never terminated (%d cycles): %s" %
+                       (ctx, kinds[i] if a is mags[0] else "mapped", i, "write" if a.ops[i]["we"] else "read", a.ops[i]["adr"] << 2, cyc,
+                        "the bus is a point-to-point connection without a timeout unit" if not hasattr(h._interconnect, "timeout") else "timeout unit present"),
+                       key=key, cls=cls, cycles=cyc)
+    init0 = _wb_init(7, 0)
+    for (i, s0, ackc, dat_r, err), kd in zip(mags[0].results, kinds):
+        if kd == "mapped":
+            j = 0 if i != 5 else S - 1
+            exp = _wb_init(7, j)[(ops[i]["adr"]) & 15]
+            if dat_r != exp:
+                return bad("disturbed", "%s: mapped read #%d of %#x returned %#x, the slave holds %#x" % (ctx, i, ops[i]["adr"] << 2, dat_r, exp),
+                           key=key, cls=cls, cycles=cyc)
+        else:
+            if ackc - s0 > (T + 3) * M + 2:          # (waiting for the other master's cycle included; the exact bound is run_wb's)
+                return bad("bound", "%s: %s request #%d terminated %d cycles after it was issued" % (ctx, kd, i, ackc - s0), key=key, cls=cls, cycles=cyc)
+            if not ops[i]["we"] and dat_r != ONES:
+                return bad("error-indication", "%s: %s read #%d was answered with %#x instead of all ones" % (ctx, kd, i, dat_r), key=key, cls=cls, cycles=cyc)
+    return ok(nt=True, cls=cls, cycles=cyc)
+
+
 def subchecks():
     return [
         Sub("wishbone", run_wb, strategy=st_wb, examples=(2000, 40000), timeout=(600, 7200),
@@ -1015,6 +1093,8 @@ def subchecks():
             rule="AXIInterconnectShared with single-beat bursts, same agents and oracle"),
         Sub("crossbars", run_xbar, enum=enum_xbar, exhaustive=True,
             rule="Crossbar / AXILiteCrossbar / AXICrossbar / SoCCore(bus_interconnect='crossbar') built with timeout T in {1,4,16} x unmapped or silent target x rd/wr"),
+        Sub("socbus-timeout", run_socbus, enum=enum_socbus, exhaustive=True, shards=(8, 8),
+            rule="buses composed by SoCBusHandler.do_finalize with a timeout configured: mapped / unmapped / never-answered requests"),
         Sub("soc-counter", run_soc, strategy=st_soc, examples=(240, 5000), timeout=(600, 7200),
             rule="CPU-less SoCCore (wishbone / axi-lite, shared) with bus_timeout=T and a test master: programs over unmapped addresses, SRAM and the "
                  "scratch CSR; ctrl.bus_errors (signal and read through the bus) == number of forced terminations"),
